@@ -438,3 +438,51 @@ Definition run_event (s : store) (e : event) : store :=
   | EvOther f => f s
   end.
 Definition run (s : store) (h : list event) : store := fold_left run_event h s.
+
+(* ------------------------------------------------------------------ batches and the ID placeholder *)
+(* One request = a list of batch items over (store, placeholder).  The placeholder starts as None in every request
+   (process_request resets it); only the four creating operations (Create, CreateKeyPair, Register, DeriveKey) write it:
+   to the identifier they issue (the private key's for CreateKeyPair).  Set/Modify/DeleteAttribute read
+   `unique_identifier = self._id_placeholder; if payload.unique_identifier: unique_identifier = payload...`. *)
+Inductive item :=
+| IAttr (uid : option Z) (r : areq)            (* Set / Modify / DeleteAttribute, identifier optional *)
+| ICreating (news : list obj) (u : Z)          (* a creating operation that succeeded: objects appended, identifier issued *)
+| IOther (f : store -> store)                  (* any other successful item (Get, GetAttributes, Activate, ... with explicit id) *)
+| IFailedOther.                                (* any other item that failed: nothing changed *)
+
+Inductive iresult := RAttr (o : outcome) | ROk | RFail.
+Definition bstate := (store * option Z)%type.
+
+Definition resolve (uid ph : option Z) : option Z := match uid with Some u => Some u | None => ph end.
+
+Definition step_item (v : version) (user : string) (st : bstate) (it : item) : bstate * iresult :=
+  match it with
+  | IAttr uid r => let so := step v user (fst st) (resolve uid (snd st)) r in ((fst so, snd st), RAttr (snd so))
+  | ICreating news u => ((app (fst st) news, Some u), ROk)
+  | IOther f => ((f (fst st), snd st), ROk)
+  | IFailedOther => (st, RFail)
+  end.
+
+Definition failed_result (x : iresult) : bool :=
+  match x with RAttr (Failed _) => true | RFail => true | _ => false end.
+
+(* executed items with the state before and after each; cont = Batch Error Continuation Option is Continue *)
+Definition entry := (bstate * item * bstate * iresult)%type.
+Fixpoint trace (v : version) (user : string) (cont : bool) (st : bstate) (b : list item) : list entry :=
+  match b with
+  | [] => []
+  | it :: t =>
+    let so := step_item v user st it in
+    (st, it, fst so, snd so) :: (if negb cont && failed_result (snd so) then [] else trace v user cont (fst so) t)
+  end.
+
+Definition final_state (st : bstate) (tr : list entry) : bstate :=
+  match rev tr with [] => st | (_, _, st', _) :: _ => st' end.
+Definition run_batch (v : version) (user : string) (cont : bool) (s : store) (b : list item) : bstate * list iresult :=
+  let tr := trace v user cont (s, None) b in
+  (final_state (s, None) tr, map (fun e => snd e) tr).
+
+(* what the placeholder must be: the identifier issued by the last creating item so far *)
+Definition ph_update (ph : option Z) (it : item) : option Z :=
+  match it with ICreating _ u => Some u | _ => ph end.
+Definition last_created (ph0 : option Z) (pre : list item) : option Z := fold_left ph_update pre ph0.
